@@ -278,6 +278,33 @@ pub fn run(tier: Tier) -> i32 {
             candidates.push(format!("{}-Latn-XX", lang));
             candidates.push(format!("{}-{}", lang, lang));
             candidates.push(lang.to_uppercase());
+            // every one-character edit of every table tag of this language:
+            // a tag that merely begins like, or is a fragment of, a known
+            // regional tag has an unknown region
+            for t in tagset.iter().filter(|t| t.split('-').next() == Some(lang.as_str()) && t.contains('-')) {
+                for c in ('a'..='z').chain('A'..='Z').chain('0'..='9').chain(['-', '_', ' '].into_iter()) {
+                    candidates.push(format!("{}{}", t, c));
+                }
+                let chars: Vec<char> = t.chars().collect();
+                candidates.push(chars[..chars.len() - 1].iter().collect());
+                for i in lang.len() + 1..chars.len() {
+                    for c in ['A', 'Z', 'a', 'z', '0'] {
+                        let mut e = chars.clone();
+                        if e[i] != c {
+                            e[i] = c;
+                            candidates.push(e.iter().collect());
+                        }
+                        let mut ins = chars.clone();
+                        ins.insert(i, c);
+                        candidates.push(ins.iter().collect());
+                    }
+                }
+                let region: String = chars[lang.len() + 1..].iter().collect();
+                candidates.push(format!("{}-{}", t, region));
+                candidates.push(format!("{}-posix", t));
+                candidates.push(format!("{}-x-{}", lang, region));
+                candidates.push(format!("{}--{}", lang, region));
+            }
             for s in candidates {
                 n += 1;
                 let r = catch(|| {
